@@ -201,6 +201,7 @@ template <class V, class G> bool hist_one (bool thorough, int maxdepth)
     R.add ("transitions", trans.load ());
     R.add ("evaluations", trans.load ());
     R.add ("history_states", nstates);
+    if (is_half<typename S::T>::value) R.cls ("half.histories.transitions", trans.load ());
     R.cls ("extend.from-empty-set", c_fromempty); R.cls ("extend.argument-already-inside", c_nochange);
     R.cls ("extend.lowers-min", c_growmin); R.cls ("extend.raises-max", c_growmax); R.cls ("extend.empty-argument", c_emptyarg);
     R.note ("histories " + S::name (), std::string (fixpoint ? "fixpoint (all history lengths) reached at depth " : "explored to depth ") +
